@@ -9,23 +9,25 @@ COQ_EXEC = ['exec.X_sort']
 COQ_IMPORTS = 'From PB Require Import model.M_sort.\n'
 PER_FILE = 500
 CASE_TIMEOUT = 5
-RULE = ('cases: (1) cmp on ALL ordered pairs of a fixed 64-value universe (None, bools, np.bool_, ints, floats, np ints/floats, two NaN objects, '
+RULE = ('cases: (1) cmp on ALL ordered pairs of a fixed %d-value universe (None, bools, np.bool_, ints, floats, np ints/floats, adjacent ints beyond 2^53 and float(2**53), two NaN objects, '
         '+-inf, strings incl. non-ASCII, datetimes/dates/np.datetime64, empty and non-empty tuples/lists/dicts, nested, two distinct empty dicts), '
         'one case per row, compared entry by entry with the model, plus the laws (range, reflexive, antisymmetric, transitive, int/float 0, NaN above '
-        'finite) on all pairs and all 64^3 triples of the real matrix; (2) random nested triples (x, perturbed x, perturbed again) - all 9 comparisons '
+        'finite) on all pairs and all triples of the real matrix; (2) random nested triples (x, perturbed x, perturbed again) - all 9 comparisons '
         'compared with the model, laws checked; (3) sort(xs) and sorted(xs, key=Cmp) on lists (0-8, thorough 0-12) of scalars from the property domain '
         '(None, ints, finite floats, NaN, str, datetimes) and equal-length tuples of them - compared element by element (identity of NaN included) with '
         'the model stable sort, oracle = permutation and non-decreasing under the real cmp; (4) dictable.sort on tables of 0-8 rows, 2-4 columns, key '
         'columns (as arguments or as one list) / key functions / explicit value orders - whole result table and the result of sorting it again compared with the model; oracle = '
         'stable index sort by key (ties by original position), idempotent, value-order placement. non-trivial = comparison decided below the type '
         'level / sort or table sort that moves something; distinct by full input')
+
 EXPLANATION = ('theorems C07_* (coq/props/C07.v) hold for every value of the nested mixed-type universe, every list and every table (structural '
                'induction, no bound): cmp in {-1,0,1}, total, reflexive, antisymmetric, transitive (all <,=,<= combinations), int/float equality, NaN above '
                'finite; sort = permutation + sorted between any two positions; dictable.sort = the stable sort (indices strictly increasing in (key, '
                'position)), idempotent, value orders. The correspondence ties the executable model to /repo on every run, evaluated inside Coq.')
 TRUSTED = ['modelled, not verified: CPython sorted() is a stable sort (insertion sort in the model), dict insertion order, str comparison by code point',
            'harness mapping of python / numpy scalars to model values (as_primitive is exercised by the real cmp; the model starts from the primitive)']
-ASSUMPTIONS = ['numbers are half-integers of magnitude < 2^50 (cmp compares ints as floats; beyond 2^53 that rounds)', 'dict keys are strings',
+ASSUMPTIONS = ['ints are exact at any size (cmp compares ints exactly since /repo d277e58; adjacent ints beyond 2^53 and 10**30 are generated); floats are half-integers '
+               'of magnitude < 2^50 or the exactly representable float(2**53), so python floats and the model\'s exact arithmetic agree', 'dict keys are strings',
                'sort / table cells: None, ints, finite floats, NaN, strings, datetimes (bools and +-inf only in the cmp laws, as the property says)']
 EXHAUSTIVE = {'quick': False, 'thorough': False}
 
@@ -129,9 +131,13 @@ def vrank_type(v):
     return {'b': 1, 'npb': 1, 'd': 2, 'npd': 2, 'date': 2, 'm': 3, 'i': 4, 'f': 4, 'nan': 4, 'inf': 4, 'npi': 4, 'npf': 4, 'npnan': 4, 'l': 5, 's': 6, 't': 7}[k]
 
 D0 = 737425 * DAYUS     # 2020-01-01
+# adjacent ints beyond 2^53 (cmp compares ints exactly) and float(2**53), which equals the int 2**53
+HUGE = [['i', 2 ** 53], ['i', 2 ** 53 + 1], ['i', 2 ** 53 + 2], ['i', -(2 ** 53) - 1], ['i', 10 ** 30], ['f', 2 ** 54]]
 UNIVERSE = [
     None, ['b', True], ['b', False], ['npb', True],
     ['i', 0], ['i', 1], ['i', -1], ['i', 2], ['f', 2], ['f', 1], ['f', -1], ['f', 3], ['i', 2 ** 40], ['f', 2 ** 41 + 1], ['npi', 1], ['npf', 3],
+    ['i', 2 ** 53], ['i', 2 ** 53 + 1], ['i', 2 ** 53 + 2], ['i', -(2 ** 53) - 1], ['i', 10 ** 30], ['f', 2 ** 54], ['npi', 2 ** 53 + 1],
+    ['t', [['i', 2 ** 53 + 1]]], ['t', [['f', 2 ** 54]]],
     ['nan', 0], ['nan', 1], ['npnan', 0], ['inf', False], ['inf', True],
     ['s', ''], ['s', 'a'], ['s', 'A'], ['s', 'ab'], ['s', 'b'], ['s', 'None'], ['s', '1'], ['s', 'é'], ['s', 'a中'],
     ['d', D0], ['d', D0 + 1000000], ['date', D0], ['npd', D0 + 1000000], ['d', D0 - DAYUS],
@@ -143,6 +149,8 @@ UNIVERSE = [
     ['m', [['a', ['i', 2]], ['b', ['i', 1]]]], ['m', [['a', ['m', []]]]], ['m', [['a', ['m', [['b', ['nan', 0]]]]]]], ['m', [['a', ['l', [['i', 1], ['i', 2]]]]]],
     ['m', [['ab', None], ['a', ['inf', True]]]],
 ]
+
+RULE = RULE % len(UNIVERSE)
 
 # ------------------------------------------------------------------ Coq side
 COQ_PRELUDE = 'Definition U : list val := [' + ';\n '.join(coq_val(v) for v in UNIVERSE) + '].\n'
@@ -209,10 +217,14 @@ def laws_on_matrix(vals, M, descr):
                     return 'not transitive: cmp(x,y) = %d, cmp(y,z) = %d but cmp(x,z) = %d for x, y, z = %s, %s, %s' % (a, b, Mi[k], descr(i), descr(j), descr(k))
     def isnum(x):
         return isinstance(x, (int, float)) and not isinstance(x, bool) or type(x).__name__.startswith(('int', 'float'))
+    def prim(x):       # numpy scalars compare through float64 (np.int64(2**53+1) == 2.0**53 is True); python's own int/float comparison is exact
+        tn = type(x).__name__
+        return int(x) if tn.startswith('int') else float(x) if tn.startswith('float') else x
     for i in range(n):
         for j in range(n):
             x, y = vals[i], vals[j]
             if isnum(x) and isnum(y):
+                x, y = prim(x), prim(y)
                 fx, fy = x == x and abs(x) != math.inf, y == y and abs(y) != math.inf
                 if fx and fy and x == y and M[i][j] != 0:
                     return 'numerically equal %s and %s compare %d' % (descr(i), descr(j), M[i][j])
@@ -368,6 +380,7 @@ def shape(case):
 STRS = ['', 'a', 'b', 'ab', 'A', 'a b', 'None', '1', 'nan']
 def rand_num(rng):
     r = rng.random()
+    if r < 0.07: return rng.choice(HUGE)
     if r < 0.5: return ['i', rng.randrange(-3, 4)]
     if r < 0.85: return ['f', rng.randrange(-6, 7)]
     if r < 0.95: return ['i', rng.choice([2 ** 40, -2 ** 40, 10 ** 9, 7])]
@@ -403,14 +416,21 @@ def rand_val(rng, depth):
     if r < 0.82: return ['l', [rand_val(rng, depth - 1) for _ in range(n)]]
     keys = rng.sample(['a', 'b', 'c', 'ab', 'B'], n)
     return ['m', [[k, rand_val(rng, depth - 1)] for k in keys]]
+def fok(twice):
+    """twice/2 is exactly a python float"""
+    from fractions import Fraction
+    return Fraction(twice / 2.0) == Fraction(twice, 2)
+
 def perturb(rng, v, depth=3):
     """a value close to v: same shape, one small change (or none)"""
     r = rng.random()
     if v is None or v[0] not in ('t', 'l', 'm') or r < 0.15:
-        if v is not None and v[0] in ('i', 'npi') and r < 0.5: return ['f', 2 * v[1]]
+        if v is not None and v[0] in ('i', 'npi') and r < 0.5 and fok(2 * v[1]): return ['f', 2 * v[1]]
         if v is not None and v[0] in ('f', 'npf') and v[1] % 2 == 0 and r < 0.5: return ['i', v[1] // 2]
         if v is not None and v[0] == 'nan' and r < 0.6: return rng.choice([['nan', (v[1] + 1) % 3], ['inf', False], ['inf', True]])
-        if r < 0.75 and v is not None and v[0] in ('i', 'f'): return [v[0], v[1] + rng.choice([-1, 1])]
+        if r < 0.75 and v is not None and v[0] in ('i', 'f'):
+            w = v[1] + rng.choice([-1, 1])
+            return [v[0], w] if v[0] == 'i' or fok(w) else v
         if r < 0.8: return v
         return rand_val(rng, depth - 1)
     k, a = v
@@ -432,26 +452,28 @@ def perturb(rng, v, depth=3):
 
 def rand_sort_list(rng, tier):
     n = rng.choice([0, 1, 2, 2, 3, 3, 4, 5, 6, 8] if tier == 'quick' else [0, 1, 2, 3, 4, 5, 6, 8, 10, 12])
-    mode = rng.choice(['nums', 'nums', 'numsnan', 'numsnan', 'strs', 'dates', 'mixed', 'mixed', 'tuples', 'tuples', 'tuplesmixed'])
+    mode = rng.choice(['nums', 'nums', 'numsnan', 'numsnan', 'strs', 'dates', 'mixed', 'mixed', 'tuples', 'tuples', 'tuplesmixed', 'huge'])
     def sc(m):
         if m == 'nums': return rand_num(rng)
+        if m == 'huge': return rng.choice(HUGE + [['i', 1], ['nan', 0]]) if rng.random() < 0.9 else rand_domain_scalar(rng)
         if m == 'numsnan': return ['nan', rng.randrange(2)] if rng.random() < 0.3 else rand_num(rng)
         if m == 'strs': return ['s', rng.choice(STRS)]
         if m == 'dates': return rand_date(rng)
         return rand_domain_scalar(rng)
     if mode.startswith('tuples'):
         k = rng.choice([1, 2, 2, 3])
-        colmodes = [rng.choice(['nums', 'numsnan', 'strs', 'mixed', 'dates']) if mode == 'tuplesmixed' or rng.random() < 0.3 else rng.choice(['nums', 'strs'])
+        colmodes = [rng.choice(['nums', 'numsnan', 'strs', 'mixed', 'dates', 'huge']) if mode == 'tuplesmixed' or rng.random() < 0.3 else rng.choice(['nums', 'strs', 'huge'])
                     for _ in range(k)]
         return [['t', [sc(m) for m in colmodes]] for _ in range(n)]
     return [sc(mode) for _ in range(n)]
 
 COLS = ['a', 'b', 'c', 'd']
 def rand_column(rng, n, mode=None):
-    mode = mode or rng.choice(['ints', 'ints', 'nums', 'numsnan', 'strs', 'mixed', 'mixed', 'dates', 'none', 'bin', 'bin'])
+    mode = mode or rng.choice(['ints', 'ints', 'nums', 'numsnan', 'strs', 'mixed', 'mixed', 'dates', 'none', 'bin', 'bin', 'huge'])
     out = []
     for _ in range(n):
         if mode == 'ints': out.append(['i', rng.randrange(0, 4)])
+        elif mode == 'huge': out.append(rng.choice(HUGE + HUGE + [['i', 0], ['f', 1]]))
         elif mode == 'bin': out.append(rng.choice([['i', 0], ['i', 0], ['i', 0], ['i', 1], ['f', 0]]))      # few keys, big groups
         elif mode == 'nums': out.append(rng.choice([['i', rng.randrange(0, 3)], ['f', 2 * rng.randrange(0, 3)], ['f', rng.randrange(-2, 5)]]))
         elif mode == 'numsnan': out.append(['nan', rng.randrange(2)] if rng.random() < 0.3 else ['i', rng.randrange(0, 3)])
@@ -548,7 +570,7 @@ LEVEL_TEXT = ('machine-checked Coq theorems (C07_*, structural induction over th
               'cmp is total, {-1,0,1}-valued, reflexive, antisymmetric, transitive, 0 on numerically equal int/float, NaN above every finite number; '
               'sort returns a permutation sorted between any two positions; dictable.sort is the stable sort (row indices strictly increasing in '
               '(key under cmp, original position)), idempotent on rectangular tables, and explicit value orders rank listed values by position and '
-              'unlisted ones last; the executable model is compared with /repo inside Coq on the full 64x64 cmp matrix and thousands of generated '
+              'unlisted ones last; the executable model is compared with /repo inside Coq on the full cmp matrix of a fixed universe (incl. adjacent ints beyond 2^53) and thousands of generated '
               'triples, lists and tables on every run')
 LEVEL_NOTE = ('the model is of the REPAIRED code (fixes/C07.patch): the pinned sort() returns [nan, 0] for [nan, 0] (C07_sort_pinned_refuted) and the pinned '
               'cmp raises ValueError on two distinct empty dicts. trusted: Coq kernel/vm_compute; modelled not verified: CPython sorted() is stable, '
